@@ -263,6 +263,14 @@ class Memory(Backend):
     async def set_add(self, key: Key, *values: str, expire: float | None = None):
         val: set = await self._get(key, default=set())
         val.update(values)
+        if key in self.store:
+            # the set has to live as long as its longest-living member
+            expire_at, _ = self.store[key]
+            if expire_at is None or not expire:
+                del self.store[key]
+                expire = None
+            else:
+                expire = max(expire, expire_at - time.time())
         self._set(key, val, expire=expire)
 
     async def set_remove(self, key: Key, *values: str):
